@@ -5,13 +5,16 @@ HERE = os.path.dirname(os.path.abspath(__file__))
 ASSUMPTIONS = [
     "'returned to the allocator' is observed at free()/realloc() issued by library objects (link-time --wrap) and by OpenSSL (CRYPTO_set_mem_functions); copies in registers, on the stack or in libc's stdio buffer are outside the property's wording and not visible",
     "which bytes of an opaque AES object are secret is found differentially (same history, two keys): bytes that do not depend on the key are not required to be wiped",
-    "both the -O1/ASan build and a plain -O2 build of the library are checked (wiping must survive optimisation)",
+    "the -O1/ASan build, a plain -O2 build and an -O2 -flto build (whole-library optimisation at link time) of the library are checked (wiping must survive optimisation)",
     "trusted: clang 14, rapidcheck, OpenSSL 3 memory hooks, engine/allocwrap.h",
 ]
 SUBS = []
 for _n, _q, _t, _f in [("ctx", 20000, 200000, False), ("aes", 1500, 20000, True), ("dh", 1200, 15000, False), ("awskeys", 6000, 60000, False)]:
     SUBS.append(dict(name=_n, fork=_f, quick=dict(cases=_q, shards=2), thorough=dict(cases=_t, shards=2)))
     SUBS.append(dict(name=_n + "-O2", fork=_f, quick=dict(cases=_q, shards=2), thorough=dict(cases=_t, shards=2)))
+# the same library built with -O2 -flto (whole-library optimisation at link time)
+for _n, _q, _t, _f in [("ctx", 20000, 200000, False), ("aes", 1500, 20000, True)]:
+    SUBS.append(dict(name=_n + "-LTO", fork=_f, quick=dict(cases=_q, shards=1), thorough=dict(cases=_t, shards=2)))
 # long streams (>= 2^32 bits through the context): a handful of cases, each a few CPU-seconds
 SUBS.append(dict(name="ctxlong", quick=dict(cases=1, shards=2), thorough=dict(cases=8, shards=4)))
 SUBS.append(dict(name="ctxlong-O2", quick=dict(cases=1, shards=2), thorough=dict(cases=8, shards=4)))
@@ -24,14 +27,17 @@ WRAPS = ["malloc", "calloc", "realloc", "free", "fgets", "ferror"]
 def build(B):
     core = B.compile_cxx(os.path.join(HERE, "core.cpp"))
     out = {}
-    for variant, name in (("asan", "C20"), ("o2", "C20o2")):
+    for variant, name in (("asan", "C20"), ("o2", "C20o2"), ("o2lto", "C20lto")):
         lib = B.build_lib(variant, only=FILES)
         shim = B.compile_c(os.path.join(HERE, "shim.c"), variant=variant)
-        out[name] = B.link(os.path.join(B.BUILD, "bin", name), [core, shim] + list(lib.values()), libs=["-lrapidcheck", "-lcrypto"], wraps=WRAPS)
+        out[name] = B.link(os.path.join(B.BUILD, "bin", name), [core, shim] + list(lib.values()), libs=["-lrapidcheck", "-lcrypto"], wraps=WRAPS,
+                           extra=(["-flto", "-O2"] if variant == "o2lto" else []))
     binmap = {"default": out["C20"]}
     for s in SUBS:
         if s["name"].endswith("-O2"):
             binmap[s["name"]] = out["C20o2"]
+        if s["name"].endswith("-LTO"):
+            binmap[s["name"]] = out["C20lto"]
     return binmap
 
 
